@@ -39,6 +39,7 @@ type Exec struct {
 	bindings map[string]map[string]*BindDesc // pinned-tree descriptors of contract names (rename tolerance)
 	bindRec  map[string]map[string]*BindDesc // recorded during this run (when asked to)
 	siteMatched map[int]bool // indexes of site clauses of the top contract that matched some program point
+	sortPerms       map[string]string // "<function>#<n>" -> permutation function of the n-th sort.Slice call
 	optionalOb      string // key of the optional invariant whose obligation is being emitted
 	optionalDropped bool   // an optional invariant was dropped while generating (the function must be generated again)
 	immCells map[string]Val // address term of a write-once cell (parameter captured by a closure, never reassigned) -> its value
